@@ -12,22 +12,28 @@
   * classes = strongly connected components: `reach_sound_complete`, `reach_saturates`,
     `sccClasses_total`, `scc_is_partition_by_mutual_reach`, `same_class_iff`,
     `sccClasses_order_independent`
-  * recurrent = no edge leaves: `sink_iff_closed`, `sink_classes_spec`
+  * recurrent = no edge leaves: `sink_iff_closed`, `sink_classes_spec`, `closed_under_reach`,
+    `recurrent_iff_returns`, `transient_iff_escapes`, `every_state_reaches_recurrent_class`,
+    `recurrent_class_exists`, `class_count_bounds`, `irreducible_all_recurrent`
   * is_irreducible / counts / labelled variants: `isSC_iff`, `isSC_classes_eq_range`,
-    `counts_consistent`, `showClasses_labelled`
-  * period = gcd of cycle lengths: `level_loop_correct`, `period_dvd_closed_walk`, `period_is_gcd`,
+    `counts_consistent`, `showClasses_labelled`, `labelled_variants_consistent`, `mc_labelled_variants_consistent`, `labeller_some`,
+    `periodDG_notImpl_iff`
+  * period = gcd of cycle lengths: `level_loop_correct`, `level_is_distance`, `level_edge_le`, `period_dvd_closed_walk`, `period_is_gcd`,
     `bfs_complete`, `periodDG_never_stuck`, `periodDG_is_gcd`, `periodDG_is_gcd_of_cycles`,
     `periodBFS_eq_all_edges`, `period_order_independent`, `selfLoop_period_one`, `periodBFS_pos`,
-    `closed_walks_upto_n_suffice` (justifies the harness oracle)
+    `closed_walks_upto_n_suffice` (justifies the harness oracle), `exists_simple_cycle`, `period_le_n`
   * reducible chain = lcm over recurrent classes: `periodRec_spec`, `class_period_is_gcd`,
-    `closed_class_walks`, `period_reducible_spec`, `periodMC_reducible`, `periodMC_irreducible`
+    `closed_class_walks`, `period_reducible_spec`, `periodMC_reducible`, `periodMC_irreducible`,
+    `subgraph_recurrent_sc`, `periodDG_ok_of_sc`, `periodMC_total`, `lcm_fold_characterisation`
   * cyclic classes: `level_step_mod`, `cyclic_classes_spec`, `cyclic_classes_spec'`,
-    `cyclic_classes_nonempty`, `cyclic_classes_unique`, `cyclic_classes_aperiodic`
+    `cyclic_classes_nonempty`, `cyclic_classes_unique`, `cyclic_classes_aperiodic`, `walk_class_shift`,
+    `cyclic_classes_order_independent`
   * sub-graph: `subgraph_edge_iff`; stored zeros: `elimZeros_spec`
   * histories on one object (label reassignment interleaved with reads): `dg_history_read`,
     `dg_history_readSub`, `dgRead_indices_label_free`, `mc_coherent_after`, `mc_history_read`,
-    `mcRead_indices_label_free`
+    `mcRead_indices_label_free`, `reportDG_eq_reads`, `reportMC_eq_reads`
 -/
+import Mathlib.Data.List.Basic
 import QEModel.C03
 import QEProofs.Lemmas.C03Period
 import QEProofs.Lemmas.C03Reach
@@ -36,6 +42,7 @@ import QEProofs.Lemmas.C03Sat
 import QEProofs.Lemmas.C03Bfs
 import QEProofs.Lemmas.C03Sub
 import QEProofs.Lemmas.C03Cycle
+import QEProofs.Lemmas.C03Dist
 import Mathlib.Data.List.Perm.Subperm
 namespace QE.C03
 
@@ -965,6 +972,449 @@ theorem elimZeros_spec (stored nz : List (List Nat)) :
 example : elimZeros [[1, 0], [1, 0]] [[1, 0], [1, 1]] = [[1], [1, 0]] := by decide
 
 
+/-! ## recurrent and transient states -/
+
+/-- a set of nodes that no edge leaves contains everything reachable from its members -/
+theorem closed_under_reach (g : G) (C : List Nat) (hcl : ∀ u, u ∈ C → ∀ v, g.E u v → v ∈ C)
+    {u v : Nat} (hu : u ∈ C) (h : Reach g u v) : v ∈ C := by
+  induction h with
+  | refl => exact hu
+  | tail _ e ih => exact hcl _ ih _ e
+
+/-- **T1 (recurrent state ⇔ every reachable state leads back).** A state lies in one of the
+    reported recurrent classes exactly when it is recurrent in the textbook sense for a finite
+    chain: from whatever state it can reach, it can be reached again. -/
+theorem recurrent_iff_returns (g : G) (hwf : g.wf = true) (Cs : List (List Nat))
+    (h : sccClasses g = some Cs) (u : Nat) (hu : u < g.n) :
+    (∃ C, C ∈ sinkClasses g Cs ∧ u ∈ C) ↔ ∀ v, Reach g u v → Reach g v u := by
+  have hp := sccClasses_partition g hwf Cs h
+  constructor
+  · rintro ⟨C, hC, huC⟩ v huv
+    obtain ⟨hCs, hcl⟩ := (sink_classes_spec g hwf Cs h C).1 hC
+    have hvC := closed_under_reach g C hcl huC huv
+    have hv : v < g.n := reach_lt g hwf hu huv
+    exact ((same_class_iff g hwf Cs h u v hu hv).1 ⟨C, hCs, huC, hvC⟩).2
+  · intro hret
+    obtain ⟨C, hC, huC⟩ := hp.cover u hu
+    refine ⟨C, (sink_classes_spec g hwf Cs h C).2 ⟨hC, ?_⟩, huC⟩
+    intro w hw x hwx
+    obtain ⟨m, _, _, hch⟩ := hp.char C hC
+    have hwn := ((hch w).1 hw).1
+    have hxn := (E_lt g hwf hwx).2
+    -- u ↔ w, w → x, hence u ⟶ x and (recurrence) x ⟶ u ⟶ w
+    have huw := (same_class_iff g hwf Cs h u w hu hwn).1 ⟨C, hC, huC, hw⟩
+    have hux : Reach g u x := Relation.ReflTransGen.tail huw.1 hwx
+    have hxu := hret x hux
+    obtain ⟨C', hC', huC', hxC'⟩ := (same_class_iff g hwf Cs h u x hu hxn).2 ⟨hux, hxu⟩
+    have : C' = C := hp.disj C' hC' C hC u huC' huC
+    rw [← this]; exact hxC'
+
+/-- **T1 (transient state).** A state outside every recurrent class can reach a state from which
+    there is no way back. -/
+theorem transient_iff_escapes (g : G) (hwf : g.wf = true) (Cs : List (List Nat))
+    (h : sccClasses g = some Cs) (u : Nat) (hu : u < g.n) :
+    (¬ ∃ C, C ∈ sinkClasses g Cs ∧ u ∈ C) ↔ ∃ v, Reach g u v ∧ ¬ Reach g v u := by
+  rw [recurrent_iff_returns g hwf Cs h u hu]
+  constructor
+  · intro hn
+    by_contra hc
+    exact hn (fun v huv => by
+      by_contra hvu
+      exact hc ⟨v, huv, hvu⟩)
+  · rintro ⟨v, huv, hvu⟩ hall
+    exact hvu (hall v huv)
+
+
+open Classical in
+/-- number of states reachable from `u` (proof-side measure) -/
+noncomputable def reachCount (g : G) (u : Nat) : Nat :=
+  ((List.range g.n).filter fun v => decide (Reach g u v)).length
+
+open Classical in
+theorem reachCount_lt (g : G) (u x : Nat) (hu : u < g.n) (hux : Reach g u x) (hxu : ¬ Reach g x u) :
+    reachCount g x < reachCount g u := by
+  unfold reachCount
+  have hsub : List.Sublist ((List.range g.n).filter fun v => decide (Reach g x v))
+      ((List.range g.n).filter fun v => decide (Reach g u v)) := by
+    apply List.monotone_filter_right
+    intro a ha
+    simp only [decide_eq_true_eq] at ha ⊢
+    exact hux.trans ha
+  have hle := hsub.length_le
+  rcases Nat.lt_or_eq_of_le hle with hlt | heq
+  · exact hlt
+  · exfalso
+    have hEq := hsub.eq_of_length heq
+    have hmem : u ∈ (List.range g.n).filter fun v => decide (Reach g u v) := by
+      simp [hu, Relation.ReflTransGen.refl]
+    rw [← hEq] at hmem
+    simp only [List.mem_filter, decide_eq_true_eq] at hmem
+    exact hxu hmem.2
+
+/-- **T1 (every state leads to a recurrent class).** From every state some state of a reported
+    recurrent class can be reached; a recurrent state reaches its own class in 0 steps. -/
+theorem every_state_reaches_recurrent_class (g : G) (hwf : g.wf = true) (Cs : List (List Nat))
+    (h : sccClasses g = some Cs) (u : Nat) (hu : u < g.n) :
+    ∃ C, C ∈ sinkClasses g Cs ∧ ∃ v, v ∈ C ∧ Reach g u v := by
+  have key : ∀ k u, u < g.n → reachCount g u = k →
+      ∃ C, C ∈ sinkClasses g Cs ∧ ∃ v, v ∈ C ∧ Reach g u v := by
+    intro k
+    induction k using Nat.strong_induction_on with
+    | _ k ih =>
+      intro u hu hk
+      by_cases hret : ∀ v, Reach g u v → Reach g v u
+      · obtain ⟨C, hC, huC⟩ := (recurrent_iff_returns g hwf Cs h u hu).2 hret
+        exact ⟨C, hC, u, huC, Relation.ReflTransGen.refl⟩
+      · have hex : ∃ x, Reach g u x ∧ ¬ Reach g x u := by
+          by_contra hc
+          exact hret (fun v huv => by
+            by_contra hvu
+            exact hc ⟨v, huv, hvu⟩)
+        obtain ⟨x, hux, hxu⟩ := hex
+        have hlt := reachCount_lt g u x hu hux hxu
+        obtain ⟨C, hC, v, hvC, hxv⟩ := ih (reachCount g x) (by omega) x (reach_lt g hwf hu hux) rfl
+        exact ⟨C, hC, v, hvC, hux.trans hxv⟩
+  exact key _ u hu rfl
+
+
+/-- **T1 (count bounds).** `num_recurrent_classes ≤ num_communication_classes ≤ n`. -/
+theorem class_count_bounds (g : G) (Cs : List (List Nat)) (h : sccClasses g = some Cs) :
+    (sinkLabels g Cs).length ≤ Cs.length ∧ Cs.length ≤ g.n := by
+  constructor
+  · unfold sinkLabels
+    calc ((List.range Cs.length).filter _).length ≤ (List.range Cs.length).length := List.length_filter_le _ _
+      _ = Cs.length := List.length_range
+  · obtain ⟨_, rfl⟩ := sccClasses_some g Cs h
+    unfold sccList
+    rw [List.length_map]
+    calc ((List.range g.n).filter _).length ≤ (List.range g.n).length := List.length_filter_le _ _
+      _ = g.n := List.length_range
+
+theorem classIdx_single (n u : Nat) (hu : u < n) : classIdx [List.range n] u = 0 := by
+  unfold classIdx
+  simp [List.findIdx_cons, hu]
+
+/-- **T1 (irreducible ⇒ the one recurrent class is the whole state space).** When there is a
+    single class, the sink computation on the condensation returns exactly that class — the
+    `[np.arange(n)]` shortcut of `sink_strongly_connected_components_indices` changes nothing. -/
+theorem irreducible_all_recurrent (g : G) (hwf : g.wf = true) (Cs : List (List Nat))
+    (h : sccClasses g = some Cs) (hsc : isSC Cs = true) :
+    sinkClasses g Cs = [List.range g.n] ∧ (sinkLabels g Cs).length = 1 := by
+  have hCs := isSC_classes_eq_range g hwf Cs h hsc
+  subst hCs
+  have hcond : condEdges g [List.range g.n] = [] := by
+    rw [List.eq_nil_iff_forall_not_mem]
+    rintro ⟨a, b⟩ hm
+    obtain ⟨u, v, hu, he, hne, _, _⟩ := (mem_condEdges g _ a b).1 hm
+    rw [classIdx_single g.n u hu, classIdx_single g.n v (E_lt g hwf he).2] at hne
+    exact hne rfl
+  have hlab : sinkLabels g [List.range g.n] = [0] := by
+    unfold sinkLabels
+    rw [hcond]
+    simp [List.range_succ]
+  unfold sinkClasses
+  rw [hlab]
+  simp
+
+
+/-- **T1 (a recurrent class exists).** A chain / graph on at least one node has at least one
+    recurrent class (`num_recurrent_classes ≥ 1`). -/
+theorem recurrent_class_exists (g : G) (hwf : g.wf = true) (hn : 0 < g.n) (Cs : List (List Nat))
+    (h : sccClasses g = some Cs) : 1 ≤ (sinkLabels g Cs).length := by
+  obtain ⟨C, hC, _⟩ := every_state_reaches_recurrent_class g hwf Cs h 0 hn
+  rw [← counts_consistent g Cs]
+  exact List.length_pos_of_mem hC
+
+/-- non-vacuity: in 0 → 1 ⇄ 2, 3 → 3 (plus 0 → 3) state 0 is transient, {1,2} and {3} are recurrent -/
+example : sccClasses ⟨4, [[1, 3], [2], [1], [3]]⟩ = some [[0], [1, 2], [3]] ∧
+    sinkClasses ⟨4, [[1, 3], [2], [1], [3]]⟩ [[0], [1, 2], [3]] = [[1, 2], [3]] ∧
+    (⟨4, [[1, 3], [2], [1], [3]]⟩ : G).wf = true := by decide
+example : isSC [[0, 1, 2]] = true ∧ sccClasses ⟨3, [[1], [2], [0]]⟩ = some [[0, 1, 2]] ∧
+    sinkClasses ⟨3, [[1], [2], [0]]⟩ [[0, 1, 2]] = [[0, 1, 2]] := by decide
+
+/-! ## `MarkovChain.period` never raises -/
+
+theorem class_nodup (g : G) (Cs : List (List Nat)) (h : sccClasses g = some Cs) (C : List Nat)
+    (hC : C ∈ Cs) : C.Nodup := by
+  obtain ⟨_, rfl⟩ := sccClasses_some g Cs h
+  obtain ⟨m, _, _, rfl⟩ := (mem_sccList _ _ _).1 hC
+  unfold sccOf
+  exact List.Nodup.filter _ List.nodup_range
+
+/-- the sub-graph on a recurrent class is strongly connected -/
+theorem subgraph_recurrent_sc (g : G) (hwf : g.wf = true) (Cs : List (List Nat))
+    (h : sccClasses g = some Cs) (C : List Nat) (hC : C ∈ Cs)
+    (hcl : ∀ u, u ∈ C → ∀ v, g.E u v → v ∈ C) (i j : Nat) (hi : i < C.length) (hj : j < C.length) :
+    Reach (subgraph g C) i j := by
+  have hp := sccClasses_partition g hwf Cs h
+  have hnd := class_nodup g Cs h C hC
+  obtain ⟨m, _, _, hch⟩ := hp.char C hC
+  have hui : C[i] ∈ C := List.getElem_mem hi
+  have huj : C[j] ∈ C := List.getElem_mem hj
+  have hr := ((same_class_iff g hwf Cs h C[i] C[j] ((hch _).1 hui).1 ((hch _).1 huj).1).1
+    ⟨C, hC, hui, huj⟩).1
+  obtain ⟨L, hw⟩ := reach_walk g hr
+  have hw' := sub_walk_from g C (hw.toWalkIn hcl hui)
+  rw [List.Nodup.idxOf_getElem hnd i hi, List.Nodup.idxOf_getElem hnd j hj] at hw'
+  exact walk_reach _ hw'
+
+/-- `DiGraph.period` answers a positive number on every strongly connected graph -/
+theorem periodDG_ok_of_sc (g : G) (hwf : g.wf = true) (hn : 0 < g.n) (Cs : List (List Nat))
+    (h : sccClasses g = some Cs) (hall : ∀ u v, u < g.n → v < g.n → Reach g u v) :
+    ∃ d proj, periodDG g Cs = .ok (d, proj) ∧ 0 < d := by
+  have hsc : isSC Cs = true := (isSC_iff g hwf hn Cs h).2 hall
+  have hvis := bfs_allVisited g hwf hn (fun v hv => hall 0 v hn hv)
+  unfold periodDG
+  by_cases h1 : g.n = 1
+  · exact ⟨1, none, by simp [h1], by decide⟩
+  · have hn2 : 2 ≤ g.n := by omega
+    have hpos := periodBFS_pos g hwf hn2 (hall 0 1 hn (by omega)) (hall 1 0 (by omega) hn)
+    by_cases hloop : hasSelfLoop g = true
+    · exact ⟨1, none, by simp [h1, hsc, hloop], by decide⟩
+    · by_cases hone : periodBFS g (bfs g) = 1
+      · exact ⟨1, none, by simp [h1, hsc, hloop, hvis, hone], by decide⟩
+      · exact ⟨periodBFS g (bfs g), some (bfs g), by simp [h1, hsc, hloop, hvis, hone], hpos⟩
+
+theorem periodRec_total (g : G) (Cls : List (List Nat)) (d0 : Nat) (hd0 : 0 < d0)
+    (hgood : ∀ C, C ∈ Cls → ∃ Cs' p proj, sccClasses (subgraph g C) = some Cs' ∧
+      periodDG (subgraph g C) Cs' = .ok (p, proj) ∧ 0 < p) :
+    ∃ d, periodRec g Cls d0 = .ok d ∧ 0 < d := by
+  induction Cls generalizing d0 with
+  | nil => exact ⟨d0, rfl, hd0⟩
+  | cons C rest ih =>
+    obtain ⟨Cs', p, proj, h1, h2, hp⟩ := hgood C (by simp)
+    unfold periodRec
+    simp only [h1, h2]
+    apply ih
+    · rw [lcmStep_eq_lcm]; exact Nat.lcm_pos hd0 hp
+    · intro C' hC'; exact hgood C' (by simp [hC'])
+
+/-- **T1 (`MarkovChain.period` is total and positive).** For every well-formed graph on at least
+    one node — irreducible or not, whatever its classes — the model of `MarkovChain.period` answers
+    a positive number: the `NotImplementedError` of `DiGraph.period` can never surface through
+    `MarkovChain.period`, because the sub-graph on a recurrent class is strongly connected. -/
+theorem periodMC_total (g : G) (hwf : g.wf = true) (hn : 0 < g.n) (Cs : List (List Nat))
+    (h : sccClasses g = some Cs) : ∃ d, periodMC g Cs = .ok d ∧ 0 < d := by
+  by_cases hsc : isSC Cs = true
+  · have hall := (isSC_iff g hwf hn Cs h).1 hsc
+    obtain ⟨d, proj, hd, hpos⟩ := periodDG_ok_of_sc g hwf hn Cs h hall
+    exact ⟨d, periodMC_irreducible g Cs hsc d proj hd, hpos⟩
+  · have hred : isSC Cs = false := by simpa using hsc
+    rw [periodMC_reducible g Cs hred]
+    apply periodRec_total g _ 1 (by decide)
+    intro C hC
+    obtain ⟨hCs, hcl⟩ := (sink_classes_spec g hwf Cs h C).1 hC
+    have hp := sccClasses_partition g hwf Cs h
+    obtain ⟨m, _, hmC, _⟩ := hp.char C hCs
+    have hlen : 0 < C.length := List.length_pos_of_mem hmC
+    have hn' : 0 < (subgraph g C).n := by simpa [subgraph] using hlen
+    have hall : ∀ u v, u < (subgraph g C).n → v < (subgraph g C).n → Reach (subgraph g C) u v := by
+      intro u v hu hv
+      exact subgraph_recurrent_sc g hwf Cs h C hCs hcl u v (by simpa [subgraph] using hu) (by simpa [subgraph] using hv)
+    obtain ⟨d, proj, hd, hpos⟩ := periodDG_ok_of_sc (subgraph g C) (subgraph_wf g C) hn' _
+      (sccClasses_total (subgraph g C)) hall
+    exact ⟨_, d, proj, sccClasses_total (subgraph g C), hd, hpos⟩
+
+example : periodMC ⟨4, [[1, 3], [2], [1], [3]]⟩ [[0], [1, 2], [3]] = .ok 2 := by decide
+
+
+/-! ## error kind of `DiGraph.period`; labelled variants -/
+
+/-- **T1 (`DiGraph.period` raises `NotImplementedError` exactly on graphs with more than one node
+    that are not strongly connected)** -/
+theorem periodDG_notImpl_iff (g : G) (Cs : List (List Nat)) :
+    periodDG g Cs = .notImpl ↔ (g.n ≠ 1 ∧ isSC Cs = false) := by
+  constructor
+  · intro hni
+    unfold periodDG at hni
+    split at hni
+    · cases hni
+    rename_i h1
+    split at hni
+    · rename_i hsc
+      exact ⟨by simpa using h1, by simpa using hsc⟩
+    split at hni
+    · cases hni
+    simp only at hni
+    split at hni
+    · cases hni
+    split at hni <;> cases hni
+  · rintro ⟨h1, hsc⟩
+    unfold periodDG
+    simp [h1, hsc]
+
+example : periodDG ⟨2, [[1], [1]]⟩ [[0], [1]] = .notImpl := by decide
+
+/-- **T1 (labelled variants annotate the very same lists).** For each of the three pairs
+    (`*_components_indices`, `*_components`) there is one list of classes that both reads print —
+    the indices variant with the node numbers, the labelled variant with `node_labels[u]` in place
+    of every `u`. -/
+theorem labelled_variants_consistent (g : G) (hwf : g.wf = true) (hn : 0 < g.n) (L : Option (List Int)) :
+    (∃ Cl, dgRead g L "scc" = showClasses (labeller none) Cl ∧ dgRead g L "scclab" = showClasses (labeller L) Cl) ∧
+    (∃ Cl, dgRead g L "sink" = showClasses (labeller none) Cl ∧ dgRead g L "sinklab" = showClasses (labeller L) Cl) ∧
+    ((∃ Cl, dgRead g L "cyc" = showClasses (labeller none) Cl ∧ dgRead g L "cyclab" = showClasses (labeller L) Cl) ∨
+      (dgRead g L "cyc" = "ERR:NotImplementedError" ∧ dgRead g L "cyclab" = "ERR:NotImplementedError")) := by
+  unfold dgRead
+  rw [sccClasses_total g]
+  simp only
+  refine ⟨⟨_, rfl, rfl⟩, ⟨_, rfl, rfl⟩, ?_⟩
+  cases hper : periodDG g (sccList (reachTable g) g.n) with
+  | ok a => exact Or.inl ⟨_, rfl, rfl⟩
+  | notImpl => exact Or.inr ⟨rfl, rfl⟩
+  | stuck =>
+    exact absurd hper (periodDG_never_stuck g hwf hn _ (sccClasses_total g))
+
+/-- the label printed for node `u` is the `u`-th entry of the label list -/
+theorem labeller_some (L : List Int) (u : Nat) (hu : u < L.length) :
+    labeller (some L) u = toString L[u] := by
+  unfold labeller
+  simp [hu]
+
+
+example : dgRead ⟨3, [[1], [0], [0]]⟩ (some [7, 8, 9]) "scc" = "0,1;2" ∧
+    dgRead ⟨3, [[1], [0], [0]]⟩ (some [7, 8, 9]) "scclab" = "7,8;9" ∧
+    dgRead ⟨3, [[1], [0], [0]]⟩ (some [7, 8, 9]) "sinklab" = "7,8" ∧
+    dgRead ⟨3, [[1], [0], [0]]⟩ (some [7, 8, 9]) "cyclab" = "ERR:NotImplementedError" := by decide
+
+/-! ## bounds on the period -/
+
+/-- every non-empty closed walk contains a simple cycle -/
+theorem exists_simple_cycle (g : G) :
+    ∀ n u vs, vs.length = n → vs ≠ [] → WalkV g u u vs →
+      ∃ u' vs', WalkV g u' u' vs' ∧ vs' ≠ [] ∧ vs'.Nodup := by
+  intro n
+  induction n using Nat.strong_induction_on with
+  | _ n ih =>
+    intro u vs hlen hne hw
+    by_cases hnd : vs.Nodup
+    · exact ⟨u, vs, hw, hne, hnd⟩
+    · obtain ⟨p, x, m, s, hl⟩ := not_nodup_split vs hnd
+      subst hl
+      have h1 := WalkV.split (p ++ x :: m) s hw
+      have h2 := WalkV.split p m h1.1
+      exact ih (x :: m).length (by rw [← hlen]; simp; omega) x (x :: m) rfl (by simp) h2.2
+
+/-- **T1 (`1 ≤ period ≤ n`).** On a strongly connected graph with at least two nodes the answer of
+    `DiGraph.period` is at least 1 and at most the number of nodes (it divides the length of a
+    simple cycle, which visits pairwise different nodes). -/
+theorem period_le_n (g : G) (hwf : g.wf = true) (hn : 2 ≤ g.n) (Cs : List (List Nat))
+    (hCs : sccClasses g = some Cs) (d : Nat) (proj : Option Vis)
+    (h : periodDG g Cs = .ok (d, proj)) : 1 ≤ d ∧ d ≤ g.n := by
+  have hn0 : 0 < g.n := by omega
+  -- the branch that answers is the strongly connected one
+  have hsc : isSC Cs = true := by
+    by_contra hc
+    have hred : isSC Cs = false := by simpa using hc
+    have := (periodDG_notImpl_iff g Cs).2 ⟨by omega, hred⟩
+    rw [this] at h; cases h
+  have hall := (isSC_iff g hwf hn0 Cs hCs).1 hsc
+  obtain ⟨a, wa⟩ := reach_walk g (hall 0 1 hn0 (by omega))
+  obtain ⟨b, wb⟩ := reach_walk g (hall 1 0 (by omega) hn0)
+  have ha : a ≠ 0 := by
+    intro h0; subst h0
+    have := walk_zero_eq g wa
+    omega
+  obtain ⟨vs, hvs, hl⟩ := (wa.append wb).toWalkV
+  have hne : vs ≠ [] := by
+    intro hc; rw [hc] at hl; simp at hl; omega
+  obtain ⟨u', vs', hw', hne', hnd'⟩ := exists_simple_cycle g vs.length 0 vs rfl hne hvs
+  have hdvd := (periodDG_is_gcd_of_cycles g hwf hn Cs hCs d proj h).1 u' vs' hw'
+  have hpos : 0 < vs'.length := List.length_pos_iff.2 hne'
+  have hsub : vs' ⊆ List.range g.n := fun x hx => List.mem_range.2 (walkV_nodes_lt g hwf hw' x hx)
+  have hle : vs'.length ≤ g.n := by
+    have := (List.subperm_of_subset hnd' hsub).length_le
+    simpa using this
+  have hd0 : 0 < d := Nat.pos_of_dvd_of_pos hdvd hpos
+  exact ⟨hd0, le_trans (Nat.le_of_dvd hpos hdvd) hle⟩
+
+
+/-- non-vacuity: the bound is attained by the directed 4-cycle -/
+example : (match periodDG ⟨4, [[1], [2], [3], [0]]⟩ [[0, 1, 2, 3]] with | .ok (d, _) => d | _ => 0) = 4 := by decide
+
+/-! ## walks across cyclic classes; the lcm of the class periods -/
+
+/-- **T1 (after `L` steps the chain is `L` classes further).** Along any walk of length `L` the
+    level (mod period) advances by `L`: a walk from cyclic class `k` ends in class `(k + L) mod d`;
+    in particular every return to the same class takes a multiple of `d` steps. -/
+theorem walk_class_shift (g : G) (hwf : g.wf = true) (hn : 0 < g.n) (u w L : Nat) (hw : Walk g u w L) :
+    levelOf g.n (bfs g) w % (periodBFS g (bfs g) : Int)
+      = (levelOf g.n (bfs g) u + (L : Int)) % (periodBFS g (bfs g) : Int) := by
+  have hinv := bfs_inv g hwf hn
+  have ht := walk_telescope g (levelOf g.n (bfs g)) ((periodBFS g (bfs g) : Nat) : Int)
+    (fun p q hpq => periodBFS_dvd_edge g (bfs g) hinv p q (E_lt g hwf hpq).1 hpq) hw
+  symm
+  apply Int.emod_eq_emod_iff_emod_sub_eq_zero.2
+  apply Int.emod_eq_zero_of_dvd
+  have heq : levelOf g.n (bfs g) u + (L : Int) - levelOf g.n (bfs g) w
+      = (L : Int) - (levelOf g.n (bfs g) w - levelOf g.n (bfs g) u) := by ring
+  rw [heq]; exact ht
+
+theorem dvd_foldl_lcm_init (ps : List Nat) (d0 : Nat) : d0 ∣ ps.foldl Nat.lcm d0 := by
+  induction ps generalizing d0 with
+  | nil => exact dvd_refl _
+  | cons p ps ih => exact Nat.dvd_trans (Nat.dvd_lcm_left d0 p) (ih _)
+
+theorem dvd_foldl_lcm_mem (ps : List Nat) (d0 p : Nat) (hp : p ∈ ps) : p ∣ ps.foldl Nat.lcm d0 := by
+  induction ps generalizing d0 with
+  | nil => simp at hp
+  | cons q ps ih =>
+    rcases List.mem_cons.1 hp with rfl | h
+    · exact Nat.dvd_trans (Nat.dvd_lcm_right d0 p) (dvd_foldl_lcm_init ps _)
+    · exact ih _ h
+
+theorem foldl_lcm_dvd (ps : List Nat) (d0 m : Nat) (h0 : d0 ∣ m) (hps : ∀ p, p ∈ ps → p ∣ m) :
+    ps.foldl Nat.lcm d0 ∣ m := by
+  induction ps generalizing d0 with
+  | nil => exact h0
+  | cons q ps ih =>
+    exact ih _ (Nat.lcm_dvd h0 (hps q (by simp))) (fun p hp => hps p (by simp [hp]))
+
+/-- **T1 (the period of a reducible chain is the least common multiple).** With `ps` the periods
+    of the recurrent classes (as in `period_reducible_spec`): every class period divides the chain's
+    period, the chain's period divides every common multiple of them, and the chain is aperiodic
+    (`period = 1`) exactly when every recurrent class is. -/
+theorem lcm_fold_characterisation (ps : List Nat) :
+    (∀ p, p ∈ ps → p ∣ ps.foldl Nat.lcm 1) ∧
+    (∀ m, (∀ p, p ∈ ps → p ∣ m) → ps.foldl Nat.lcm 1 ∣ m) ∧
+    (ps.foldl Nat.lcm 1 = 1 ↔ ∀ p, p ∈ ps → p = 1) := by
+  refine ⟨fun p hp => dvd_foldl_lcm_mem ps 1 p hp, fun m hm => foldl_lcm_dvd ps 1 m (Nat.one_dvd _) hm, ?_⟩
+  constructor
+  · intro h1 p hp
+    have := dvd_foldl_lcm_mem ps 1 p hp
+    rw [h1] at this
+    exact Nat.dvd_one.1 this
+  · intro hall
+    apply Nat.dvd_one.1
+    exact foldl_lcm_dvd ps 1 1 (dvd_refl _) (fun p hp => by rw [hall p hp])
+
+example : [2, 3, 1].foldl Nat.lcm 1 = 6 := by decide
+
+
+
+/-- **T1 (labelled variants of the chain annotate the very same lists).** -/
+theorem mc_labelled_variants_consistent (g : G) (hwf : g.wf = true) (hn : 0 < g.n) (L : Option (List Int)) :
+    (∃ Cl, mcRead g L "comm" = showClasses (labeller none) Cl ∧ mcRead g L "commlab" = showClasses (labeller L) Cl) ∧
+    (∃ Cl, mcRead g L "rec" = showClasses (labeller none) Cl ∧ mcRead g L "reclab" = showClasses (labeller L) Cl) ∧
+    ((∃ Cl, mcRead g L "cyc" = showClasses (labeller none) Cl ∧ mcRead g L "cyclab" = showClasses (labeller L) Cl) ∨
+      (mcRead g L "cyc" = "ERR:NotImplementedError" ∧ mcRead g L "cyclab" = "ERR:NotImplementedError")) := by
+  unfold mcRead
+  rw [sccClasses_total g]
+  simp only
+  refine ⟨⟨_, rfl, rfl⟩, ⟨_, rfl, rfl⟩, ?_⟩
+  by_cases hsc : isSC (sccList (reachTable g) g.n) = true
+  · cases hper : periodDG g (sccList (reachTable g) g.n) with
+    | ok a => exact Or.inl ⟨cyclicClasses g a.1 a.2, by simp [hsc], by simp [hsc]⟩
+    | notImpl => exact Or.inr ⟨by simp [hsc], by simp [hsc]⟩
+    | stuck => exact absurd hper (periodDG_never_stuck g hwf hn _ (sccClasses_total g))
+  · have : isSC (sccList (reachTable g) g.n) = false := by simpa using hsc
+    exact Or.inr ⟨by simp [this], by simp [this]⟩
+
+
+example : mcRead ⟨3, [[1], [0], [0]]⟩ (some [7, 8, 9]) "commlab" = "7,8;9" ∧
+    mcRead ⟨3, [[1], [0], [0]]⟩ (some [7, 8, 9]) "rec" = "0,1" ∧
+    mcRead ⟨3, [[1], [0], [0]]⟩ (some [7, 8, 9]) "cyclab" = "ERR:NotImplementedError" ∧
+    mcRead ⟨2, [[1], [0]]⟩ (some [7, 8]) "cyclab" = "7;8" := by decide
+
 /-! ## object histories: reads depend only on the graph and the labels in force -/
 
 /-- the labels in force after a history (`node_labels` / `state_values` as last assigned) -/
@@ -1073,5 +1523,186 @@ example : dgRun ⟨⟨2, [[1], [1]]⟩, some [10, 20]⟩ [.read "scclab", .setLa
 example : mcRun ⟨⟨2, [[0, 1], [1]]⟩, some [10, 20], none⟩ [.read "commlab", .setLabels (some [7, 8]), .read "commlab",
     .setLabels none, .read "commlab"] = ["10;20", "7;8", "0;1"] := by decide
 
+
+/-! ## cyclic classes and the storage order -/
+
+theorem periodDG_none_one (g : G) (Cs : List (List Nat)) (d : Nat)
+    (h : periodDG g Cs = .ok (d, none)) : d = 1 := by
+  unfold periodDG at h
+  split at h
+  · cases h; rfl
+  split at h
+  · cases h
+  split at h
+  · cases h; rfl
+  simp only at h
+  split at h
+  · cases h
+  split at h
+  · cases h; rfl
+  · cases h
+
+/-- **T1 (the cyclic classes do not depend on the storage order / on the BFS tree).** Two
+    well-formed graphs on the same nodes with the same edge relation get the same list of cyclic
+    classes, class by class (not merely up to rotation: node 0 is in class 0 in both). -/
+theorem cyclic_classes_order_independent (g g' : G) (hwf : g.wf = true) (hwf' : g'.wf = true)
+    (hn : g.n = g'.n) (hn2 : 2 ≤ g.n) (hE : ∀ u v, g.E u v ↔ g'.E u v)
+    (Cs Cs' : List (List Nat)) (hCs : sccClasses g = some Cs) (hCs' : sccClasses g' = some Cs')
+    (d d' : Nat) (proj proj' : Option Vis)
+    (h : periodDG g Cs = .ok (d, proj)) (h' : periodDG g' Cs' = .ok (d', proj')) :
+    cyclicClasses g d proj = cyclicClasses g' d' proj' := by
+  have hdd : d = d' := period_order_independent g g' hwf hwf' hn hn2 hE Cs Cs' hCs hCs' d d' proj proj' h h'
+  subst hdd
+  by_cases hd1 : d = 1
+  · subst hd1
+    rw [cyclic_classes_aperiodic, cyclic_classes_aperiodic, hn]
+  · -- both answers carry a level table
+    cases proj with
+    | none => exact absurd (periodDG_none_one g Cs d h) hd1
+    | some vis =>
+    cases proj' with
+    | none => exact absurd (periodDG_none_one g' Cs' d h') hd1
+    | some vis' =>
+    obtain ⟨_, hsc, rfl, hdeq, _⟩ := periodDG_bfs_branch g Cs d vis h
+    obtain ⟨_, hsc', rfl, hdeq', _⟩ := periodDG_bfs_branch g' Cs' d vis' h'
+    have hn0 : 0 < g.n := by omega
+    have hn0' : 0 < g'.n := by omega
+    have hall := (isSC_iff g hwf hn0 Cs hCs).1 hsc
+    have hvis := bfs_allVisited g hwf hn0 (fun v hv => hall 0 v hn0 hv)
+    have hinv' := bfs_inv g' hwf' hn0'
+    -- the other graph's level table advances by one along the edges of `g`
+    have hc : ∀ u v, g.E u v → (d : Int) ∣ levelOf g'.n (bfs g') u - levelOf g'.n (bfs g') v + 1 := by
+      intro u v he
+      have he' := (hE u v).1 he
+      have := periodBFS_dvd_edge g' (bfs g') hinv' u v (E_lt g' hwf' he').1 he'
+      rw [← hdeq'] at this
+      exact this
+    have hcong : ∀ v, v < g.n →
+        levelOf g.n (bfs g) v % (d : Int) = levelOf g'.n (bfs g') v % (d : Int) := by
+      intro v hv
+      unfold allVisited at hvis
+      rw [List.all_eq_true] at hvis
+      have hu := cyclic_classes_unique g hwf hn0 (d : Int) (levelOf g'.n (bfs g')) hc v
+        (hvis v (List.mem_range.2 hv))
+      rw [bfs_root g' hwf' hn0', sub_zero] at hu
+      symm
+      apply Int.emod_eq_emod_iff_emod_sub_eq_zero.2
+      exact Int.emod_eq_zero_of_dvd hu
+    unfold cyclicClasses
+    have hb : (d == 1) = false := by simpa using hd1
+    simp only [hb, Bool.false_eq_true, if_false]
+    apply List.map_congr_left
+    intro k _
+    have hr : List.range g'.n = List.range g.n := by rw [hn]
+    rw [hr]
+    apply List.filter_congr
+    intro v hv
+    rw [hcong v (List.mem_range.1 hv)]
+
+
+/-- non-vacuity: the bipartite graph 0 → {1,3}, 1 → {0,2}, … with the rows stored in two orders -/
+example : (match periodDG ⟨4, [[1, 3], [0, 2], [1, 3], [0, 2]]⟩ [[0, 1, 2, 3]], periodDG ⟨4, [[3, 1], [2, 0], [3, 1], [2, 0]]⟩ [[0, 1, 2, 3]] with
+    | .ok (d, p), .ok (d', p') => (d, d', cyclicClasses ⟨4, [[1, 3], [0, 2], [1, 3], [0, 2]]⟩ d p,
+        cyclicClasses ⟨4, [[3, 1], [2, 0], [3, 1], [2, 0]]⟩ d' p')
+    | _, _ => (0, 0, [], [])) = (2, 2, [[0, 2], [1, 3]], [[0, 2], [1, 3]]) := by decide
+
+/-! ## BFS levels are distances -/
+
+/-- **T1 (`level` is the distance from node 0).** For every node the BFS visited, `level[v]` is the
+    length of a walk from node 0 to `v` and no walk from node 0 to `v` is shorter — the array the
+    code comments as "Distance to 0" is exactly that, for every graph (strongly connected or not). -/
+theorem level_is_distance (g : G) (hwf : g.wf = true) (hn : 0 < g.n) (v : Nat)
+    (hv : visited (bfs g) v = true) :
+    (∃ l : Nat, levelOf g.n (bfs g) v = (l : Int) ∧ Walk g 0 v l) ∧
+      ∀ L, Walk g 0 v L → levelOf g.n (bfs g) v ≤ (L : Int) := by
+  refine ⟨level_is_walk g hwf hn v hv, ?_⟩
+  intro L hw
+  have hinv := bfs_inv g hwf hn
+  obtain ⟨t, ht⟩ := hinv.root
+  have hroot : ((0, none, 0) : Nat × Option Nat × Nat) ∈ bfs g := by rw [ht]; simp
+  obtain ⟨e', he', hev, hle⟩ := bfs_level_le_walk g hwf hn hw _ hroot rfl
+  have := levelArr_spec g (bfs g) hinv e' he'
+  rw [hev] at this
+  rw [this]
+  have : e'.2.2 ≤ L := by simpa using hle
+  exact_mod_cast this
+
+/-- on every stored edge between visited nodes the level grows by at most one -/
+theorem level_edge_le (g : G) (hwf : g.wf = true) (hn : 0 < g.n) (u v : Nat)
+    (hu : visited (bfs g) u = true) (he : g.E u v) :
+    visited (bfs g) v = true ∧ levelOf g.n (bfs g) v ≤ levelOf g.n (bfs g) u + 1 := by
+  have hinv := bfs_inv g hwf hn
+  unfold visited at hu
+  cases hl : visLookup (bfs g) u with
+  | none => rw [hl] at hu; simp at hu
+  | some e =>
+    obtain ⟨hmem, heu⟩ := mem_of_visLookup _ u e hl
+    obtain ⟨e', he', hev, hle⟩ := bfs_edge_level g hwf hn e hmem v (by rw [heu]; exact he)
+    have h1 := levelArr_spec g (bfs g) hinv e hmem
+    have h2 := levelArr_spec g (bfs g) hinv e' he'
+    rw [heu] at h1
+    rw [hev] at h2
+    refine ⟨by rw [← hev]; exact visited_of_mem (bfs g) e' he', ?_⟩
+    rw [h1, h2]
+    exact_mod_cast hle
+
+example : levelArr 5 (bfs ⟨5, [[1, 2], [3], [3, 4], [0], [0]]⟩) = [0, 1, 1, 2, 2] := by decide
+
+
+/-! ## the one-shot reports are the single reads -/
+
+/-- **T1 (the one-shot report is the concatenation of the single reads).** What the `dg` request
+    prints for a graph with labels `L` is, field by field, what the single reads of a history print
+    — so every theorem about `dgRead` (and the history theorems) speaks about the `dg` / `sub`
+    lines of the correspondence as well. -/
+theorem reportDG_eq_reads (g : G) (hwf : g.wf = true) (hn : 0 < g.n) (L : Option (List Int)) :
+    reportDG g (labeller L) =
+      "sc=" ++ dgRead g L "sc" ++ " nscc=" ++ dgRead g L "nscc" ++ " nsink=" ++ dgRead g L "nsink"
+        ++ " scc=" ++ dgRead g L "scclab" ++ " sink=" ++ dgRead g L "sinklab"
+        ++ " period=" ++ dgRead g L "period" ++ " aper=" ++ dgRead g L "aper" ++ " cyc=" ++ dgRead g L "cyclab" := by
+  unfold reportDG dgRead
+  rw [sccClasses_total g]
+  simp only
+  cases hper : periodDG g (sccList (reachTable g) g.n) with
+  | ok a =>
+    simp [String.append_assoc]
+    have hs : " period=" = " " ++ "period=" := by decide
+    rw [hs, String.append_assoc]
+  | notImpl =>
+    simp [String.append_assoc]
+  | stuck => exact absurd hper (periodDG_never_stuck g hwf hn _ (sccClasses_total g))
+
+
+
+/-- **T1 (the chain's one-shot report is the concatenation of the single reads).** -/
+theorem reportMC_eq_reads (g : G) (hwf : g.wf = true) (hn : 0 < g.n) (L : Option (List Int)) :
+    reportMC g (labeller L) =
+      "irr=" ++ mcRead g L "irr" ++ " ncomm=" ++ mcRead g L "ncomm" ++ " nrec=" ++ mcRead g L "nrec"
+        ++ " comm=" ++ mcRead g L "commlab" ++ " rec=" ++ mcRead g L "reclab"
+        ++ " period=" ++ mcRead g L "period" ++ " aper=" ++ mcRead g L "aper" ++ " cyc=" ++ mcRead g L "cyclab" := by
+  obtain ⟨d, hd, _⟩ := periodMC_total g hwf hn _ (sccClasses_total g)
+  unfold reportMC mcRead
+  rw [sccClasses_total g]
+  simp only [hd]
+  have h1 : ∀ X : String, " period=" ++ X = " " ++ ("period=" ++ X) := by
+    intro X
+    have hs : " period=" = " " ++ "period=" := by decide
+    rw [hs, String.append_assoc]
+  have h2 : ∀ X : String, " cyc=" ++ X = " " ++ ("cyc=" ++ X) := by
+    intro X
+    have hc : " cyc=" = " " ++ "cyc=" := by decide
+    rw [hc, String.append_assoc]
+  by_cases hsc : isSC (sccList (reachTable g) g.n) = true
+  · cases hper : periodDG g (sccList (reachTable g) g.n) with
+    | ok a => simp [hsc, String.append_assoc]; rw [h1, h2]
+    | notImpl => simp [hsc, String.append_assoc]; rw [h1]
+    | stuck => exact absurd hper (periodDG_never_stuck g hwf hn _ (sccClasses_total g))
+  · have hf : isSC (sccList (reachTable g) g.n) = false := by simpa using hsc
+    simp [hf, String.append_assoc]; rw [h1]
+
+
+example : reportDG ⟨2, [[1], [0]]⟩ (labeller (some [7, 8])) = "sc=1 nscc=1 nsink=1 scc=7,8 sink=7,8 period=2 aper=0 cyc=7;8" := by decide
+example : reportMC ⟨3, [[1], [0], [0]]⟩ (labeller none) =
+    "irr=0 ncomm=2 nrec=1 comm=0,1;2 rec=0,1 period=2 aper=0 cyc=ERR:NotImplementedError" := by decide
 
 end QE.C03
